@@ -99,7 +99,7 @@ static void modelTest(const Desc& d, const Vec<int>& testGroups, const Vec<int>&
             case K_FREE: ms.slots[o.a % N_SLOTS].live = false; break;
             case K_REALLOC: {
                 MSlot& s = ms.slots[o.a % N_SLOTS];
-                if (s.live && s.family == 2) { s.size = (size_t)o.c; s.file = file; s.line = (size_t)o.d; s.ownerSeq = mySeq; }   // the block is re-registered by this test
+                if (s.live && s.family == 2 && o.b != 1) { s.size = (size_t)o.c; s.file = file; s.line = (size_t)o.d; s.ownerSeq = mySeq; }   // the block is re-registered by this test
                 break;
             }
             case K_EXPECT_LEAKS: expectLeaks = (size_t)o.a; break;
